@@ -265,6 +265,7 @@ func TestC09(t *testing.T) {
 	alt.HostileDocs, alt.HostileDocsWide = true, true
 	alt.Consensus = 65
 	alt.MaxTxs = 14
+	alt.PEvidence, alt.PAbsent = 12, 8 // slashing, jailing and rewards under whatever the voters have put in force
 	alt.W["propose"], alt.W["vote"] = 12, 45
 	alt.W["raw"] = 4
 	alt.LiveInject = true
